@@ -3,7 +3,7 @@ from __future__ import annotations
 
 import ast
 
-from ..absint import parent_map, enclosing
+from ..absint import parent_map, enclosing, Interp, BaseDomain, ANY
 from ..loader import norm, own_nodes, AnalysisError
 from .common import analysed, fmt_value
 
@@ -231,6 +231,7 @@ def run(ctx):
     rep.rule('R1.1', 'fresh iterator per pass: __iter__ is a generator or returns a call; never self or a stored attribute; no __next__ on a view')
     rep.rule('R1.2', 'no one-shot resource (iterator, generator, open file) is stored on the view at construction')
     rep.rule('R1.3', 'shared-state discipline: every attribute written by iterator-reachable code is reviewed and obeys its discipline')
+    rep.rule('R1.5', 'source protocol: open() in a read mode hands out a stream created by that very call, never one kept on the source object from an earlier open()')
     rep.rule('R1.4', 'no process-global mutable state in view code (module-level random functions, os.environ, chdir, globals)')
     rep.assumptions = ['sources are deterministic and user callbacks are side-effect free',
                        'methods named clearcache/reseed/__setitem__ are invoked by the user, not by iterators, '
@@ -249,6 +250,16 @@ def run(ctx):
         r12(ctx, rep, v)
         n_shared += r13(ctx, rep, v, found)
     r14(ctx, rep)
+    r15(ctx, rep)
+    # the `flag` discipline of CacheView.cachecomplete also requires the flag to be truthful
+    from .common import cacheview_flag_truthful
+    cfn, cex = cacheview_flag_truthful(ctx)
+    if cex is None:
+        rep.held('R1.3', cfn, 'self.cachecomplete = True', 'raised only while every row of the pass was memoised', cfn.node)
+    else:
+        rep.violated('R1.3', cfn, 'self.cachecomplete = True',
+                     cex + ': the next pass, and every live iterator still replaying the memo, stops after the memoised '
+                     'prefix', cfn.node)
     ctx.floor('view_classes', n_views, 100)
     present = [k for k in SHARED_STATE if k in found]
     ctx.floor('reviewed_shared_fields_present', len(present), 11)
@@ -659,3 +670,176 @@ def r14(ctx, rep):
                     n += 1
                     rep.violated('R1.4', fn, norm(node), '%s changes process-global state' % t, node)
     rep.count('global_state_sites', n)
+
+
+# ------------------------------------------------------------------------ R1.5
+PROCESS_STREAM_SOURCES = {'StdinSource': 'standard input is one process-wide stream by nature (not re-iterable, outside the property)',
+                          'StdoutSource': 'write-only'}
+
+
+class _FreshStreams(BaseDomain):
+    """Path-partitioned must-analysis for a source's open(): per mode class
+    ('r' / 'not-r' / '?') the set of names (self attributes, locals) that were
+    bound by a call expression during this invocation on every path."""
+
+    def __init__(self, mode_param):
+        self.mode = mode_param
+        self.delivered = []     # (node, state)
+
+    def entry_state(self):
+        return frozenset([('?', frozenset())])
+
+    def join(self, a, b):
+        d = {}
+        for tag, facts in list(a) + list(b):
+            d[tag] = facts if tag not in d else (d[tag] & facts)
+        return frozenset(d.items())
+
+    def equal(self, a, b):
+        return a == b
+
+    def may_raise(self, s, st):
+        return {ANY} if any(isinstance(n, (ast.Call, ast.Raise)) for n in ast.walk(s)) else set()
+
+    def may_raise_expr(self, e, st):
+        return {ANY} if any(isinstance(n, ast.Call) for n in ast.walk(e)) else set()
+
+    def _fresh(self, value, facts):
+        if isinstance(value, ast.Call):
+            return True
+        if isinstance(value, (ast.Name, ast.Attribute)):
+            return norm(value) in facts
+        if isinstance(value, ast.IfExp):
+            return self._fresh(value.body, facts) and self._fresh(value.orelse, facts)
+        return False
+
+    def _assign(self, targets, value, st):
+        out = []
+        for tag, facts in st:
+            f = set(facts)
+            for t in targets:
+                if isinstance(t, (ast.Name, ast.Attribute)):
+                    if value is not None and self._fresh(value, facts):
+                        f.add(norm(t))
+                    else:
+                        f.discard(norm(t))
+            out.append((tag, frozenset(f)))
+        return frozenset(out)
+
+    def exec_simple(self, s, st):
+        for n in ast.walk(s):
+            if isinstance(n, (ast.Yield, ast.YieldFrom)) and n.value is not None:
+                self.delivered.append((n.value, st))
+        if isinstance(s, ast.Assign):
+            return self._assign(s.targets, s.value, st)
+        if isinstance(s, ast.AnnAssign):
+            return self._assign([s.target], s.value, st)
+        return st
+
+    def exec_return(self, s, st):
+        if s.value is not None:
+            self.delivered.append((s.value, st))
+        return st
+
+    def enter_with(self, item, st):
+        if item.optional_vars is not None:
+            return self._assign([item.optional_vars], item.context_expr, st)
+        return st
+
+    def _mode_test(self, test):
+        """`'r' in mode` / mode.startswith('r') / mode == 'r...' -> 'r'; negations handled by caller"""
+        if isinstance(test, ast.Compare) and len(test.ops) == 1 and isinstance(test.comparators[0], ast.Name) \
+                and test.comparators[0].id == self.mode and isinstance(test.ops[0], ast.In) \
+                and isinstance(test.left, ast.Constant) and test.left.value == 'r':
+            return True
+        if isinstance(test, ast.Call) and norm(test.func) == self.mode + '.startswith' and test.args \
+                and isinstance(test.args[0], ast.Constant) and test.args[0].value == 'r':
+            return True
+        if isinstance(test, ast.Compare) and len(test.ops) == 1 and isinstance(test.ops[0], ast.Eq) \
+                and norm(test.left) == self.mode and isinstance(test.comparators[0], ast.Constant) \
+                and str(test.comparators[0].value).startswith('r'):
+            return True
+        return False
+
+    def assume(self, test, st, truth):
+        neg = False
+        while isinstance(test, ast.UnaryOp) and isinstance(test.op, ast.Not):
+            test = test.operand
+            neg = not neg
+        if self._mode_test(test):
+            isr = truth != neg
+            out = {}
+            for tag, facts in st:
+                if tag == '?':
+                    tag = 'r' if isr else 'not-r'
+                elif (tag == 'r') != isr:
+                    continue        # infeasible
+                out[tag] = facts if tag not in out else (out[tag] & facts)
+            return frozenset(out.items())
+        return st
+
+
+def _delivered_names(e, candidates):
+    out = []
+    for n in ast.walk(e):
+        if isinstance(n, (ast.Name, ast.Attribute)) and isinstance(getattr(n, 'ctx', None), ast.Load) \
+                and norm(n) in candidates:
+            out.append(norm(n))
+    return out
+
+
+def r15(ctx, rep):
+    """A view re-opens its source on every pass (`with source.open('rb') as f`);
+    the passes - and the live iterators - are independent only if each open()
+    gets its own stream (its own position)."""
+    n = 0
+    mods = [m for name, m in sorted(ctx.project.modules.items())
+            if name in ('petl.io.sources', 'petl.io.remotes') or name == 'petl._controls.' + CONTROL]
+    for m in mods:
+        for cq, cls in sorted(m.classes.items()):
+            fn = cls.methods.get('open')
+            if fn is None or len(fn.params) < 2:
+                continue
+            real = not m.name.startswith('petl._controls')
+            if cls.name in PROCESS_STREAM_SOURCES:
+                rep.held('R1.5', fn, 'def open', 'exempt: ' + PROCESS_STREAM_SOURCES[cls.name], fn.node)
+                n += real
+                continue
+            mode = fn.params[1]
+            # candidates: attributes that hold a stream: bound in open() itself, or by a stateful constructor in __init__
+            cand = set()
+            for node in own_nodes(fn.node):
+                if isinstance(node, ast.Assign):
+                    for t in node.targets:
+                        if _self_attr(t):
+                            cand.add(norm(t))
+            init = cls.methods.get('__init__')
+            if init is not None:
+                for node in own_nodes(init.node):
+                    if isinstance(node, ast.Assign) and isinstance(node.value, ast.Call) and \
+                            ctx.res.callee_names(init, node.value) & STATEFUL_CTORS:
+                        for t in node.targets:
+                            if _self_attr(t):
+                                cand.add(norm(t))
+            dom = _FreshStreams(mode)
+            Interp(fn.node, dom).run()
+            if not dom.delivered:
+                rep.undecided('R1.5', fn, 'def open', 'open() neither yields nor returns a stream', fn.node)
+                continue
+            n += real
+            bad = {}
+            for value, st in dom.delivered:
+                for name in _delivered_names(value, cand):
+                    for tag, facts in st:
+                        if tag != 'not-r' and name not in facts:
+                            bad.setdefault((norm(value), name), value)
+            for (vtxt, name), node in sorted(bad.items(), key=lambda kv: kv[0]):
+                rep.violated('R1.5', fn, 'open(read) -> %s' % vtxt,
+                             'in a read mode there is a path on which %s was not created by this call: the stream kept '
+                             'on the source by an earlier open() is handed out again, so every iterator over this '
+                             'source shares one stream position (a second iterator rewinds or advances the first)'
+                             % name, node)
+            if not bad:
+                rep.held('R1.5', fn, 'open(read) -> %s' % ', '.join(sorted({norm(v)[:40] for v, _ in dom.delivered})),
+                         'every stream handed out in a read mode is created by the call', fn.node)
+    ctx.floor('source_open_methods', n, 10)
